@@ -9,6 +9,7 @@ import (
 	"math/big"
 	"os"
 	"strings"
+	"time"
 
 	testcases "github.com/google/go-tdx-guest/testing"
 	"github.com/google/go-tdx-guest/testing/testdata"
@@ -380,6 +381,7 @@ func runC11(r *mc.Run) {
 	world.SetLogLevel(0)
 
 	c11SignatureShapes(r)
+	c11LongLived(r)
 
 	// genuine Intel samples
 	now := world.TimeSetAt(intelRefTime)
@@ -433,6 +435,70 @@ func c11Dims(c *mc.Ctx) string {
 // signature, TCB Info signature, QE Identity signature) with r or s of every leading-byte shape: the
 // deterministic signer walks its nonce sequence until the wanted shape appears, so each world is still
 // honestly signed and must be accepted.
+// c11LongLived: honest worlds one of whose artifacts (or all of them) stays valid far into the future: just past the
+// year 2262 (where a 64-bit count of nanoseconds since 1970 ends), 2400, 2600, and 9999-12-31T23:59:59Z (RFC 5280's
+// "no well-defined expiration date"). In date is in date, however far the end lies.
+func c11LongLived(r *mc.Run) {
+	T := world.CachedPKI("T")
+	horizons := []time.Time{time.Date(2262, 4, 11, 23, 47, 17, 0, time.UTC), time.Date(2262, 4, 12, 0, 0, 0, 0, time.UTC), time.Date(2400, 1, 1, 0, 0, 0, 0, time.UTC),
+		time.Date(2600, 1, 1, 0, 0, 0, 0, time.UTC), time.Date(2900, 1, 1, 0, 0, 0, 0, time.UTC), time.Date(9999, 12, 31, 23, 59, 59, 0, time.UTC)}
+	whats := []string{"root", "intermediate", "leaf", "tcb-signer", "pck-crl", "root-crl", "tcbinfo", "qeidentity", "all"}
+	const pckDP = "https://api.trustedservices.intel.com/sgx/certification/v4/pckcrl?ca=platform&encoding=der"
+	n := 0
+	for _, h := range horizons {
+		for _, what := range whats {
+			is := func(k string) bool { return what == k || what == "all" }
+			w := world.Honest("T")
+			pk := *T
+			if is("root") {
+				pk.Root = world.MakeCert(world.CertSpec{CN: world.CNRoot, IsCA: true, Key: T.RootKey, MaxPathLen: 1, NotAfter: h}, nil, T.RootKey)
+			}
+			if is("intermediate") {
+				pk.Inter = world.MakeCert(world.CertSpec{CN: world.CNPlatform, IsCA: true, Key: T.InterKey, MaxPathLen: -1, NotAfter: h}, pk.Root, T.RootKey)
+			}
+			if is("leaf") {
+				pk.Leaf = world.MakeCert(world.CertSpec{CN: world.CNLeaf, Key: T.LeafKey, SGXExt: world.SGXExtension(w.Plat), CRLDP: []string{pckDP}, NotAfter: h}, pk.Inter, T.InterKey)
+			}
+			if is("tcb-signer") {
+				pk.Tcb = world.MakeCert(world.CertSpec{CN: world.CNTcb, Key: T.TcbKey, NotAfter: h}, pk.Root, T.RootKey)
+			}
+			w.PKI = &pk
+			w.Spec.PKI = w.PKI
+			w.Parts = w.Spec.Parts()
+			w.Roots = world.Pool(pk.Root)
+			if is("pck-crl") {
+				w.PckCrl = world.MakeCRL(world.CRLSpec{Issuer: pk.Inter, Signer: pk.InterKey, NextUpdate: h})
+			}
+			if is("root-crl") {
+				w.RootCrl = world.MakeCRL(world.CRLSpec{Issuer: pk.Root, Signer: pk.RootKey, NextUpdate: h})
+			}
+			if is("tcbinfo") {
+				w.TcbInfo.NextUpdate = world.TimeStr(h)
+			}
+			if is("qeidentity") {
+				w.QeID.NextUpdate = world.TimeStr(h)
+			}
+			w.Finish()
+			for _, level := range []int{world.L0, world.L1, world.L2} {
+				id := fmt.Sprintf("long-lived/%s-until-%s/%s", what, h.Format("2006-01-02"), lvlName[level])
+				if !r.Want(id) {
+					continue
+				}
+				n++
+				raw := w.Raw()
+				err := verifyRawBoth(r, id, raw, w.Options(level))
+				out := verdict(err)
+				if err != nil {
+					r.Violate("long-lived:honest-rejected:"+what, id, "an honestly produced, in-date quote is rejected at "+lvlName[level]+" ("+what+" valid until "+h.Format(time.RFC3339)+"): "+errStr(err), nil)
+					out += "!"
+				}
+				r.Eval(id, true, "long-lived:"+lvlName[level]+":"+out)
+			}
+		}
+	}
+	r.SectionDone(mc.Section{Name: "long-lived-worlds", Evaluations: int64(n), Exhaustive: true})
+}
+
 func c11SignatureShapes(r *mc.Run) {
 	type shape struct {
 		name string
